@@ -153,6 +153,21 @@ CLAIMED = {
             "two reduced products (one name / one Get caller); thorough the full one (29.6 M states).",
             "TLC exhaustive check of Updater.tla + TLC trace validation (with schedule search) of recorded sequential and concurrent histories",
             "DESIGN.md §4 C15"),
+    "C12": ("model_checking",
+            "Store.tla makes calling a handle an action that is enabled in every state in which the handle exists (while a successor store is "
+            "constructed, during polls, lookups, the expiry sweep, while and after Close) and that returns the version most recently installed "
+            "for that name. TLC checks HandleNeverDangles, InstalledServed, InstLast and ReadServed exhaustively over handles x reads x polls "
+            "(ticks and refreshes) x lookups (incl. two callers racing for one unknown name) x expiry x Close x service changes. Recorded "
+            "histories of the real store are validated by TLC: random sequential ones (a read is attempted at every point, also while a "
+            "request is held by the scripted service: it must complete without the clock or any request moving), behaviours simulated by TLC "
+            "from the same configurations and forced on the real store step by step, and concurrent ones in which three reader goroutines "
+            "call handles in bursts racing the driver's step under the race detector, where TLC places each call between its begin and end "
+            "line. A stress run (8 readers, 60 installing polls, lookups, expiry, Close) under the race detector checks the order property "
+            "on hundreds of thousands of reads.",
+            "'No data race' is Go's memory model and is decided by the race detector on these runs, not by the specification. A blocked handle "
+            "call is detected by a real-time watchdog outside the virtual-time bubble (20 s).",
+            "TLC exhaustive check of Store.tla (reads + race configurations) + TLC trace validation of random, TLC-simulated and concurrent histories + race detector",
+            "DESIGN.md §4 C12"),
 }
 
 ALL = ["C%02d" % i for i in range(1, 21)]
